@@ -12,6 +12,7 @@ import (
 	"fmt"
 	"math/big"
 	"path/filepath"
+	"reflect"
 	"runtime"
 	"strings"
 	"sync"
@@ -35,11 +36,14 @@ type Call struct {
 
 // Input is one history over shared objects.
 type Input struct {
-	Kind   string         `json:"kind"` // grid | sequence | special | repeat
-	Creds  []credgen.Spec `json:"creds"`
-	Opts   []credgen.Opts `json:"opts"`
-	Calls  []Call         `json:"calls"`
-	Repeat int            `json:"repeat,omitempty"` // each call repeated this many extra times (repeatability oracle)
+	Kind  string         `json:"kind"` // grid | sequence | special | repeat
+	Creds []credgen.Spec `json:"creds"`
+	Opts  []credgen.Opts `json:"opts"`
+	Calls []Call         `json:"calls"`
+	// SharedMz: the MerklizerOpts slices of all option objects are built on ONE backing array with
+	// spare capacity (an object whose options carry a hasher has it as the element after the loader)
+	SharedMz bool `json:"shared_mz,omitempty"`
+	Repeat   int  `json:"repeat,omitempty"` // each call repeated this many extra times (repeatability oracle)
 }
 
 type callObs struct {
@@ -107,8 +111,10 @@ func loaderOf(o *credgen.Opts) int {
 	return o.Loader
 }
 
-func (g *gen) viewOf(sp credgen.Spec, loader int) credgen.View {
-	k := fmt.Sprintf("%d|", loader) + specKey(sp)
+func saltedOf(o *credgen.Opts) bool { return o != nil && o.Salted }
+
+func (g *gen) viewOf(sp credgen.Spec, loader int, salted bool) credgen.View {
+	k := fmt.Sprintf("%d|%v|", loader, salted) + specKey(sp)
 	g.mu.Lock()
 	v, ok := g.views[k]
 	g.mu.Unlock()
@@ -119,7 +125,7 @@ func (g *gen) viewOf(sp credgen.Spec, loader int) credgen.View {
 	if err != nil {
 		panic(fmt.Sprintf("generator: %v", err))
 	}
-	v = g.envs[loader].ViewOf(&c.VC, pathsOf(under(sp, loader)))
+	v = g.envs[loader].ViewOfWith(&c.VC, pathsOf(under(sp, loader)), g.envs[loader].MerklizeOptsFor(credgen.Opts{Salted: salted}))
 	g.mu.Lock()
 	g.views[k] = v
 	g.mu.Unlock()
@@ -465,12 +471,20 @@ func (g *gen) register(sp credgen.Spec) {
 		put(g.envs[0], sp.Override)
 		put(g.envs[1], sp.Override)
 	}
+	if sp.CtxIPFS {
+		urls := append([]string{"https://www.w3.org/2018/credentials/v1", sp.Schema.URL}, sp.PreCtx...)
+		urls = append(urls, sp.ExtraCtx...)
+		if sp.Override != nil {
+			urls = append(urls, sp.Override.URL)
+		}
+		g.envs[0].ServeIPFS(urls...)
+	}
 	// envs[2] never learns a schema: every call that carries it fails while loading the contexts
 }
 
 func optsEqual(a credgen.Opts, r *verifiable.CoreClaimOptions) bool {
 	x := credgen.FromReal(r)
-	x.Loader = a.Loader
+	x.Loader, x.Salted = a.Loader, a.Salted
 	return a == x
 }
 
@@ -492,11 +506,38 @@ func (g *gen) run(in *Input) (out outcome) {
 	}
 	var objs []*verifiable.CoreClaimOptions
 	var mzSlices [][]merklize.MerklizeOption
+	var common []merklize.MerklizeOption
+	if in.SharedMz && len(in.Opts) > 0 {
+		common = make([]merklize.MerklizeOption, 0, 4)
+		common = append(common, g.envs[in.Opts[0].Loader].MerklizeOpts()...)
+	}
 	for _, o := range in.Opts {
 		r := g.envs[o.Loader].Real(o)
+		if in.SharedMz {
+			r.MerklizerOpts = common
+			if o.Salted {
+				r.MerklizerOpts = append(common, merklize.WithHasher(credgen.SaltedHasher()))
+			}
+		}
 		objs = append(objs, r)
 		mzSlices = append(mzSlices, r.MerklizerOpts)
 	}
+	// the option slices up to their CAPACITY, element by element (functions by code pointer)
+	snap := func() [][]uintptr {
+		var all [][]uintptr
+		for _, r := range objs {
+			full := r.MerklizerOpts[:cap(r.MerklizerOpts)]
+			ps := make([]uintptr, len(full))
+			for i, f := range full {
+				if f != nil {
+					ps[i] = reflect.ValueOf(f).Pointer()
+				}
+			}
+			all = append(all, ps)
+		}
+		return all
+	}
+	before := snap()
 	ho := &out.obs
 	usedCred := map[int]bool{}
 	usedOpts := map[int]bool{}
@@ -512,6 +553,10 @@ func (g *gen) run(in *Input) (out outcome) {
 		co := oneCall(&creds[k.Cred].VC, op)
 		ho.calls = append(ho.calls, co)
 		out.evals++
+		if now := snap(); !reflect.DeepEqual(now, before) {
+			fail("c05-options-written", fmt.Sprintf("call %d changed the backing array of an option object's MerklizerOpts (elements up to the capacity, by code pointer): %v -> %v", ci, before, now), map[string]any{"history": in, "call": ci})
+			before = now
+		}
 		// after EVERY call, successful or not, every credential is what it was (proofs included)
 		for i := range creds {
 			if !credgen.SameCredential(&creds[i].VC, &pristine[i].VC) {
@@ -540,7 +585,7 @@ func (g *gen) run(in *Input) (out outcome) {
 			usedOpts[k.Opts] = true
 		}
 		// (2) layout / error cases against the independent arithmetic statement
-		ex := expected(under(in.Creds[k.Cred], loaderOf(effp)), g.viewOf(in.Creds[k.Cred], loaderOf(effp)), eff)
+		ex := expected(under(in.Creds[k.Cred], loaderOf(effp)), g.viewOf(in.Creds[k.Cred], loaderOf(effp), saltedOf(effp)), eff)
 		if ex.ok != (fo.class == "ok") {
 			fail("c05-error-case", fmt.Sprintf("fresh call: got %s (%s), expected ok=%v (%s)", fo.class, fo.msg, ex.ok, ex.why), where)
 		} else if ex.ok {
@@ -564,7 +609,7 @@ func (g *gen) run(in *Input) (out outcome) {
 	// (4) options and credentials are left as they were
 	for i, o := range in.Opts {
 		after := credgen.FromReal(objs[i])
-		after.Loader = o.Loader
+		after.Loader, after.Salted = o.Loader, o.Salted
 		ho.after = append(ho.after, after)
 		same := optsEqual(o, objs[i]) && len(objs[i].MerklizerOpts) == len(mzSlices[i])
 		if same && len(mzSlices[i]) > 0 && &objs[i].MerklizerOpts[0] != &mzSlices[i][0] {
@@ -1014,6 +1059,44 @@ func (g *gen) contextStream(p pool) {
 	}
 }
 
+// sharedStream: option objects whose MerklizerOpts share one backing array with spare capacity
+// (optsA = [loader], optsB = append(optsA, WithHasher)).  A call with one object must not disturb the
+// other's options: the claim built with optsB is the same before and after a call with optsA.
+func (g *gen) sharedStream(p pool) {
+	e := g.env
+	str := func(s string) *string { return &s }
+	did := credgen.MakeDID(17)
+	ms := e.NewSchema(nil)
+	ss := e.NewSchema(str(credgen.SerAttr("name", "", "", "price")))
+	for _, sp := range []credgen.Spec{{Schema: ms, Subject: did}, {Schema: ss}} {
+		for _, calls := range [][]Call{{{0, 1}, {0, 0}, {0, 1}}, {{0, 0}, {0, 1}, {0, 0}, {0, 1}}, {{0, 1}, {0, 1}, {0, 0}, {0, 0}, {0, 1}}, {{0, 2}, {0, 1}, {0, 0}, {0, 2}, {0, 1}}} {
+			g.add(&Input{Kind: "shared", SharedMz: true, Creds: []credgen.Spec{sp},
+				Opts: []credgen.Opts{{}, {Salted: true, Upd: true}, {Salted: true, Version: 9, Subject: "value"}}, Calls: calls})
+		}
+	}
+}
+
+// ipfsStream: credentials whose contexts are ipfs:// objects that only the merklizer's own loader,
+// configured through WithIPFSClient / WithIPFSGateway in MerklizerOpts, can resolve (no WithDocumentLoader;
+// the process-wide default loader knows no IPFS).
+func (g *gen) ipfsStream(p pool) {
+	e := g.env
+	str := func(s string) *string { return &s }
+	did := credgen.MakeDID(19)
+	ms := e.NewSchema(nil)
+	ss := e.NewSchema(str(credgen.SerAttr("price", "count", "", "name")))
+	x := int64(1888888888)
+	for _, sp := range []credgen.Spec{{Schema: ms, Subject: did, CtxIPFS: true}, {Schema: ss, CtxIPFS: true, Expiration: &x}, {Schema: ss, CtxIPFS: true, Subject: did, Omit: []string{"name"}}} {
+		for _, ld := range []int{3, 4} {
+			for _, o := range []credgen.Opts{{Loader: ld}, {Loader: ld, Subject: "value", Upd: true, Version: 3, RevNonce: 8}, {Loader: ld, Root: "value"}} {
+				g.add(&Input{Kind: "ipfs", Creds: []credgen.Spec{sp}, Opts: []credgen.Opts{o}, Calls: []Call{{0, 0}, {0, 0}}})
+			}
+		}
+		// the loader of options 0 (and the default loader behind nil options) cannot resolve ipfs:// addresses
+		g.add(&Input{Kind: "ipfs", Creds: []credgen.Spec{sp}, Opts: []credgen.Opts{{Loader: 3}, {Loader: 0}, {Loader: 4}}, Calls: []Call{{0, 0}, {0, 1}, {0, 2}, {0, -1}, {0, 0}}})
+	}
+}
+
 func (g *gen) repeatStream(p pool) {
 	pick := []credgen.Spec{p.merk[5], p.ser[len(p.ser)-1]}
 	for _, c := range p.special {
@@ -1064,12 +1147,12 @@ func (g *gen) writeShards() error {
 		for i := lo; i < hi; i++ {
 			in, ob := g.hists[i], g.obs[i]
 			// the model's credential is the view under the loader the call's options carry
-			poolOf := func(ci, loader int) int {
+			poolOf := func(ci, loader int, salted bool) int {
 				sp := in.Creds[ci]
-				key := fmt.Sprintf("%d|", loader) + specKey(sp)
+				key := fmt.Sprintf("%d|%v|", loader, salted) + specKey(sp)
 				j, ok := poolIdx[key]
 				if !ok {
-					v := g.viewOf(sp, loader)
+					v := g.viewOf(sp, loader, salted)
 					or.Note(v)
 					j = len(poolDefs)
 					poolIdx[key] = j
@@ -1086,11 +1169,11 @@ func (g *gen) writeShards() error {
 				if k.Opts >= 0 {
 					oi = fmt.Sprintf("(Some %d)", k.Opts)
 				}
-				ld := 0
+				ld, salted := 0, false
 				if k.Opts >= 0 {
-					ld = in.Opts[k.Opts].Loader
+					ld, salted = in.Opts[k.Opts].Loader, in.Opts[k.Opts].Salted
 				}
-				ks = append(ks, fmt.Sprintf("kc %d %s", poolOf(k.Cred, ld), oi))
+				ks = append(ks, fmt.Sprintf("kc %d %s", poolOf(k.Cred, ld, salted), oi))
 			}
 			for _, o := range ob.calls {
 				obl = append(obl, obsCoq(o))
@@ -1122,9 +1205,11 @@ func (g *gen) writeShards() error {
 func Run(cfg *common.Config) (*common.Report, error) {
 	rep := common.NewReport("C05")
 	rep.Correspondence = "Claim.Run.hmismatches: run_history / to_core_claim (Claim/Model.v) vs W3CCredential.ToCoreClaim over histories of calls sharing option objects and credentials: per call the 8 raw slot integers or the error class, and the option objects after the history"
-	rep.Rule = "option grid {\"\",index,value,bogus}^2 x updatable x version {0,1,2^32-1} x nonce {0,1,2^64-1} (288 points; complete on two credentials in the quick tier, on all in the thorough tier, sampled otherwise) x credentials (merklized; serialized with all 2^4 slot subsets; subject id none / two DIDs; expiration none / 2030 / 1969 / 0 / instants with fractional seconds .4 .5 .75 .999999999 written with zone offsets, also before 1970) + special credentials (unusable DIDs, null id, type taken from the top-level pair, missing named field, malformed attributes, non-string attribute, array-shaped scoped contexts, sibling types, unloadable context) + random histories of 1..6 calls over 1..3 shared option objects (or nil) and 1..3 credentials + histories in which two document loaders serve different schema documents (merklized / serialized / other assignment / malformed) at the same @context URLs and type, interleaved in both orders + failing calls (unmarshalable subject values NaN / +Inf / channel / function / failing Marshaler, unloadable contexts, bad DIDs, unknown positions) on credentials carrying proofs, between successful calls on the same objects + credentials with 3+ contexts (type @id spelled with a prefix of an earlier context; a later context redefining the type) + 30-fold repetitions. distinct = distinct (credential specs, option objects, call list) histories; every history is non-trivial (it reaches the claim builder or one of its error points)."
+	rep.Rule = "option grid {\"\",index,value,bogus}^2 x updatable x version {0,1,2^32-1} x nonce {0,1,2^64-1} (288 points; complete on two credentials in the quick tier, on all in the thorough tier, sampled otherwise) x credentials (merklized; serialized with all 2^4 slot subsets; subject id none / two DIDs; expiration none / 2030 / 1969 / 0 / instants with fractional seconds .4 .5 .75 .999999999 written with zone offsets, also before 1970) + special credentials (unusable DIDs, null id, type taken from the top-level pair, missing named field, malformed attributes, non-string attribute, array-shaped scoped contexts, sibling types, unloadable context) + random histories of 1..6 calls over 1..3 shared option objects (or nil) and 1..3 credentials + histories in which two document loaders serve different schema documents (merklized / serialized / other assignment / malformed) at the same @context URLs and type, interleaved in both orders + failing calls (unmarshalable subject values NaN / +Inf / channel / function / failing Marshaler, unloadable contexts, bad DIDs, unknown positions) on credentials carrying proofs, between successful calls on the same objects + credentials with 3+ contexts (type @id spelled with a prefix of an earlier context; a later context redefining the type) + option objects whose MerklizerOpts share one backing array with spare capacity + credentials whose contexts are ipfs:// objects resolvable only through WithIPFSClient / WithIPFSGateway in MerklizerOpts + 30-fold repetitions. distinct = distinct (credential specs, option objects, call list) histories; every history is non-trivial (it reaches the claim builder or one of its error points)."
 	g := &gen{cfg: cfg, rep: rep, env: credgen.NewEnv(), views: map[string]credgen.View{}, fresh: map[string]callObs{}}
-	g.envs = []*credgen.Env{g.env, credgen.NewEnv(), credgen.NewEnv()}
+	// 3, 4: the documents of loader 0, reachable only as ipfs:// objects through the stub IPFS node / the stub gateway
+	g.envs = []*credgen.Env{g.env, credgen.NewEnv(), credgen.NewEnv(), g.env.WithMode("ipfs-client"), g.env.WithMode("ipfs-gateway")}
+	credgen.InstallGateway(g.env)
 	merklize.SetDocumentLoader(g.env.Loader) // nil options carry no merklizer options: the default loader must be offline too
 	if cfg.Replay != "" {
 		return replay(cfg, g)
@@ -1136,6 +1221,8 @@ func Run(cfg *common.Config) (*common.Report, error) {
 	g.loaderStream(p)
 	g.failingStream(p)
 	g.contextStream(p)
+	g.sharedStream(p)
+	g.ipfsStream(p)
 	g.repeatStream(p)
 	g.flush()
 	for i, in := range g.hists {
